@@ -426,3 +426,19 @@ Proof.
   induction h as [|e h IH]; intros p Hp; cbn [fold_left]; [exact Hp|].
   apply IH. apply sp_step_latest. exact Hp.
 Qed.
+
+(* ------------------------------------------------------------------ file-backed material: independence from earlier applications *)
+Lemma policy_from_last cache cur h a :
+  policy_from false cache cur (h ++ [a]) = Some (fget (fa_files a) (fa_ca a), fget (fa_files a) (fa_cert a)).
+Proof.
+  revert cache cur; induction h as [|x h IH]; intros cache cur; cbn [app policy_from apply_cfg]; [reflexivity|apply IH].
+Qed.
+
+(* the policy in force after the k-th application is a function of the k-th configuration and the file contents at that
+   application alone *)
+Theorem policy_is_latest h a :
+  policy_after false (h ++ [a]) = Some (fget (fa_files a) (fa_ca a), fget (fa_files a) (fa_cert a)).
+Proof. apply policy_from_last. Qed.
+
+Corollary policy_independent_of_history h h' a : policy_after false (h ++ [a]) = policy_after false (h' ++ [a]).
+Proof. rewrite !policy_is_latest. reflexivity. Qed.
